@@ -107,6 +107,20 @@ class Bridge:
                 return (x for x in items)
             if array_form == 3 and t.kind == "int" and all(isinstance(x, int) and 0 <= x < 256 for x in items):
                 items = bytearray(items)  # a mutable Iterable[int] that is not a list
+            if array_form == 5:
+                # other iterables of the standard library: a range where the integers happen to be a run, else a deque
+                import collections
+
+                if t.kind == "int" and all(type(x) is int for x in items) and all(b - a == 1 for a, b in zip(items, items[1:])):
+                    return range(items[0], items[0] + len(items)) if items else range(0)
+                return collections.deque(items)
+            if array_form == 6:
+                # ... an array.array for integers, else the values view of a dict
+                import array
+
+                if t.kind == "int" and all(type(x) is int and 0 <= x < 2 ** 62 for x in items):
+                    return array.array("q", items)
+                return dict(enumerate(items)).values()
             if array_form == 4:
                 # a read-only view (a Sequence that is neither a tuple nor mutable itself) over a list its owner
                 # goes on changing
